@@ -390,9 +390,11 @@ def check_roundtrip(fmt, gates, plain, exp, exp_w, nq, acc, mkcase, unsup=None, 
                       lambda: {"exported": art, "err": repr(e)[:300], "route": label},
                       f"{fmt}.import/raises-on-own-export")
             else:
-                _viol(acc, n, f"{fmt}.export/unsupported-not-refused/{unsup}:import-raises", mkcase,
-                      lambda: {"exported": art, "import_err": repr(e)[:300], "route": label},
-                      f"{fmt}.export/unsupported-not-refused({feature(unsup)})")
+                # the round trip fails loudly: the gate is refused (at import) rather than silently altered
+                acc.count(f"{fmt}_unsupported_refused_by_importer")
+                acc.out(("refused-at-import", fmt, unsup, type(e).__name__))
+                if nt_key is not None:
+                    acc.nt(nt_key)
             continue
         got = [canon_obj(g, exact) for g in c2._gates]
         got_w = c2.width
@@ -640,7 +642,9 @@ def op_diff(ref, got):
     tags = []
     for k, v in ref.items():
         if k not in got:
-            tags.append(("term-dropped", f"abs(coef)={abs(v):.0e}" + ("<=1e-8" if abs(v) <= 1e-8 else "")))
+            # QubitOperator equality (and openfermion's compress) treat |coef| <= 1e-8 as zero: such a term may vanish
+            if abs(v) > 1e-8:
+                tags.append(("term-dropped", f"abs(coef)={abs(v):.0e}"))
         elif not abs(complex(got[k]) - complex(v)) <= OP_TOL:
             tags.append(("coefficient-differs", f"abs(coef)={abs(v):.0e}"))
     for k, v in got.items():
@@ -970,7 +974,8 @@ def selftest():
     # operator comparison
     r = {((0, "X"),): 1e-9, (): 1}
     assert op_diff(r, dict(r)) == [] and op_diff(r, {(): 1 + 0j, ((0, "X"),): 1e-9 + 1e-13}) == []
-    assert op_diff(r, {(): 1})[0][0] == "term-dropped" and op_diff(r, {(): 1, ((0, "X"),): 2e-9})[0][0] == "coefficient-differs"
+    assert op_diff(r, {(): 1}) == [] and op_diff({((0, "X"),): 1e-3, (): 1}, {(): 1})[0][0] == "term-dropped"
+    assert op_diff(r, {(): 1, ((0, "X"),): 2e-9})[0][0] == "coefficient-differs"
     assert op_diff({}, {((1, "Z"),): 1e-3})[0][0] == "extra-term"
     assert len(all_words3()) == 64 and term_key("Z2 X0") == ((0, "X"), (2, "Z")) and remap("X0 Z2", (1, 4, 7)) == "X1 Z7"
 
